@@ -565,6 +565,11 @@ DRBG_STATE_Unmarshal(DRBG_STATE *data, BYTE **buffer, INT32 *size)
     if (rc == TPM_RC_SUCCESS) {
         rc = UINT32_Unmarshal(&data->magic, buffer, size);
     }
+    if (rc == TPM_RC_SUCCESS && data->magic != DRBG_MAGIC) {
+        /* DRBG_Generate() and DRBG_Reseed() FAIL on a state without this value */
+        TPMLIB_LogTPM2Error("DRBG_STATE: bad state magic 0x%08x\n", data->magic);
+        rc = TPM_RC_BAD_TAG;
+    }
 
     if (rc == TPM_RC_SUCCESS) {
         rc = UINT16_Unmarshal(&array_size, buffer, size);
